@@ -878,6 +878,8 @@ class Interp:
                     m.flags = g["flags"]
                     # what sessions were told (or worked out from their own silent stores) on the ambiguous base
                     for ms2 in self.model.sessions.values():
+                        if ms2.selected is not box:
+                            continue  # (UIDs are per mailbox)
                         k2 = ms2.know.get(g["uid"])
                         if k2 is not None and (k2 ^ m.flags) == {"\\seen"}:
                             ms2.know[g["uid"]] = m.flags
@@ -1435,6 +1437,8 @@ class Interp:
                         m.amb = False
                         m.flags = hit[-1]
                         for ms2 in self.model.sessions.values():
+                            if ms2.selected is not box:
+                                continue  # (UIDs are per mailbox)
                             k2 = ms2.know.get(m.uid)
                             if k2 is not None and (k2 ^ m.flags) == {"\\seen"}:
                                 ms2.know[m.uid] = m.flags
